@@ -30,6 +30,7 @@ import z3
 
 from vf import sym, spec, harness, world
 from vf.sym import MV, SymName, SymVal, SymDict, SymSet, SymRef, NONEVAL, PyExc, EngineLimit, NameS, ValS, RefS, TList
+from vf.interp import Inst as _Inst
 from vf.spec import Z3Ops, PO, POK, VP, KWO, VK
 from vf.interp import Interp, Inst, IClass
 from vf.harness import VC, mk_sig, sig_view
@@ -46,6 +47,15 @@ P_SRC = clause(UP_, 'post:sources_swapped', ['C08', 'C12'], 'B')
 C_ACC = clause(UC_, 'post:accepts_iff_advertised', ['C12'], 'B')
 C_DELIV = clause(UC_, 'post:delivery', ['C12'], 'B')
 C_TE = clause(UC_, 'raises:only_TypeError', ['C12'], 'B')
+UAN = 'modifiers.annotate.__call__'
+A_RAISE = clause(UAN, 'raises:ValueError_iff_unknown_parameter', ['C12', 'C11'], 'B')
+A_VERB = clause(UAN, 'post:annotations_verbatim', ['C11'], 'B', 'the given values are stored as the annotations and reported verbatim by source_value()')
+A_REST = clause(UAN, 'post:everything_else_untouched', ['C11', 'C12'], 'B',
+                'parameters not named keep their annotation AND their upgraded wrapper; without a return annotation given, the return annotation and its wrapper are kept')
+UDG = '_util.OverrideableDataDesc.__get__'
+D_BIND = clause(UDG, 'post:bound_to_the_instance_accessed', ['C12'], 'P',
+                'the object returned for an instance wraps the function bound to THAT instance - also when another instance that compares '
+                'equal (value-based __eq__/__hash__) was accessed before; accessing the same instance again returns the cached wrapper')
 N_SET = {u: clause('modifiers.' + u, 'post:name_set', ['C12'], 'B') for u in ('_kwoargs_start', '_posoargs_end', '_autokwoargs')}
 N_FRAME = {u: clause('modifiers.' + u, 'frame:arguments_unchanged', ['C12'], 'B') for u in ('_kwoargs_start', '_posoargs_end', '_autokwoargs')}
 
@@ -140,6 +150,79 @@ def make_runner(mode, shape, npos=0, nkwo=0, nargs=0, nkeys=0, want=None):
                 r.outcome = 'return'
             except PyExc as e:
                 r.outcome, r.exc = 'raise', e
+        elif mode == 'desc_get':
+            mu = I.module('sigtools._util')
+            ODD = mu.ns['OverrideableDataDesc']
+
+            class ValueObj(SymRef):
+                """an instance of a class with value-based equality: a == b is symbolic even for distinct objects"""
+                def _vf_value_eq(self, o):
+                    if o is self:
+                        return True
+                    if isinstance(o, ValueObj):
+                        return ctx.decide(z3.Bool('the_two_instances_compare_equal'))
+                    return False
+
+                def _vf_getattr(self, interp_, name):
+                    raise PyExc(AttributeError, (name,))
+
+            class Bound:
+                """a bound method: equal to another one iff same function and the SAME instance (identity)"""
+                def __init__(self, fn, inst):
+                    self.fn, self.inst = fn, inst
+
+                def _vf_eq(self, o):
+                    return isinstance(o, Bound) and o.fn is self.fn and o.inst is self.inst
+
+            class FuncType:
+                def _vf_getattr(self, interp_, name):
+                    if name == '__get__':
+                        return lambda f, instance, owner=None: f if instance is None else Bound(f, instance)
+                    raise PyExc(AttributeError, (name,))
+
+            class Fn(SymObj):
+                def _vf_type(self, interp_):
+                    return FuncType()
+            fn = Fn('plain_method', 'function')
+            a, b = ValueObj(z3.Const('instance_a', RefS), 'a'), ValueObj(z3.Const('instance_b', RefS), 'b')
+            ctx.add(a.t != b.t)
+            built = env['built'] = []
+
+            def getter(interp_, args, kwpairs):
+                w = sym.Opaque('wrapper #%d' % len(built))
+                built.append((args[0], dict(kwpairs), w))
+                return w
+            class Getter:
+                def _vf_call(self, interp_, args, kwpairs):
+                    return getter(interp_, args, kwpairs)
+            cg = Getter()
+            desc = Inst(ODD)
+            desc._d.update(func=fn, insts=SymDict(), custom_getter=cg)
+            env.update(desc=desc, a=a, b=b, fn=fn)
+            get = I.getattr_(desc, '__get__')
+            try:
+                r1 = I.call(get, [a, sym.Opaque('owner')], [])
+                r1b = I.call(get, [a, sym.Opaque('owner')], [])
+                r2 = I.call(get, [b, sym.Opaque('owner')], [])
+                r0 = I.call(get, [None, sym.Opaque('owner')], [])
+                env['results'] = (r1, r1b, r2, r0)
+                r.outcome, r.value = 'return', r2
+            except PyExc as e:
+                r.outcome, r.exc = 'raise', e
+        elif mode == 'annotate':
+            AN = mm.ns['annotate']
+            names = [SymName(z3.Const('annotated%d' % i, NameS)) for i in range(npos)]
+            vals = [SymVal(z3.Const('annotation_value%d' % i, ValS)) for i in range(npos)]
+            if npos > 1:
+                ctx.add(z3.Distinct(*[x.t for x in names]))
+            ann = SymDict()
+            ann.items_ = list(zip(names, vals))
+            given_ret = bool(nkwo)
+            retv = SymVal(z3.Const('given_return_annotation', ValS)) if given_ret else I.module('sigtools._util').ns['UNSET']
+            self_ = Inst(AN)
+            self_._d.update(ret=retv, annotations=ann, to_use=SymSet(names))
+            env.update(names=names, vals=vals, given_ret=given_ret, retv=retv, self=self_)
+            harness.run_unit(I, I.getattr_(self_, '__call__'), [func], [], r)
         else:
             # start= / end= / auto forms: the selection they hand to _PokTranslator
             captured = env['captured'] = []
@@ -314,6 +397,69 @@ def vcs(env, want):
             goals.append(z3.BoolVal(len(sur1) == len(sur2) and all(x is y for x, y in zip(sur1, sur2))))
             out.append(VC(C_DELIV.full, [z3.Not(excl), acc_adv], z3.And(*goals) if goals else z3.BoolVal(True), C_DELIV.props))
         return out
+    if mode == 'desc_get':
+        if not on(D_BIND):
+            return out
+        if r.outcome == 'raise':
+            out.append(VC(D_BIND.full + ':no_exception:' + r.exc.typname, [], z3.BoolVal(False), D_BIND.props))
+            return out
+        r1, r1b, r2, r0 = env['results']
+        built = env['built']
+        for_b = [x for x in built if x[2] is r2]
+        ok = len(for_b) == 1 and getattr(for_b[0][0], 'inst', None) is env['b'] and getattr(for_b[0][0], 'fn', None) is env['fn'] and for_b[0][1].get('original') is env['desc']
+        for_a = [x for x in built if x[2] is r1]
+        ok_a = len(for_a) == 1 and getattr(for_a[0][0], 'inst', None) is env['a']
+        out.append(VC(D_BIND.full + ':second_instance', [], z3.BoolVal(bool(ok)), D_BIND.props))
+        out.append(VC(D_BIND.full + ':first_instance_and_cache', [], z3.BoolVal(bool(ok_a) and r1b is r1 and r0 is env['desc']), D_BIND.props))
+        return out
+    if mode == 'annotate':
+        from .common import ua_denotes
+        ms = I.module('sigtools._signatures')
+        EmptyAnn = ms.ns['EmptyAnnotation']
+        names, vals = env['names'], env['vals']
+        known = z3.And(*[z3.Or(*[n.t == name_term(p) for p in info.params]) if info.params else z3.BoolVal(False) for n in names]) if names else z3.BoolVal(True)
+        if r.outcome == 'raise':
+            if on(A_RAISE):
+                out.append(VC(A_RAISE.full, [], z3.And(z3.BoolVal(r.exc.typ is ValueError), z3.Not(known)), A_RAISE.props))
+            return out
+        if on(A_RAISE):
+            out.append(VC(A_RAISE.full + ':return_implies_all_known', [], known, A_RAISE.props))
+        func = env['func']
+        slot = func.slots.get('__signature__')
+        new = slot.v_inst if slot is not None else None
+        if not (isinstance(new, Inst) and '_parameters' in new._d):
+            out.append(VC(A_VERB.full + ':signature_set', [], z3.BoolVal(False), A_VERB.props))
+            return out
+        rps = new._d['_parameters'].plist
+        ok = len(rps) == len(info.params) and all(_origin(p) is o for p, o in zip(rps, info.params))
+        out.append(VC(A_REST.full + ':same_parameters_in_order', [], z3.BoolVal(bool(ok)), A_REST.props))
+        if not ok:
+            return out
+        for p, o in zip(rps, info.params):
+            sel = _in(names, name_term(o))
+            a = p._d['_annotation']
+            h, den = ua_denotes(p._d['upgraded_annotation'], EmptyAnn)
+            given = vals[0].t if vals else sym.NONEVAL
+            for n, v in reversed(list(zip(names, vals))):
+                given = z3.If(n.t == name_term(o), v.t, given)
+            tag = ':%s' % o._d.get('_vf_tag', '?')
+            if on(A_VERB) and names:
+                out.append(VC(A_VERB.full + tag, [sel], z3.And(a.has, a.val == given, h, den == given), A_VERB.props))
+            if on(A_REST):
+                oh, oden = ua_denotes(o._d['upgraded_annotation'], EmptyAnn)
+                oa = o._d['_annotation']
+                keep = z3.And(a.has == oa.has, z3.Implies(oa.has, a.val == oa.val), h == oh, z3.Implies(oh, den == oden))
+                same_rest = p._d['_name'] is o._d['_name'] and p._d['_kind'] == o._d['_kind'] and p._d['_default'] is o._d['_default']
+                out.append(VC(A_REST.full + tag, [z3.Not(sel)], z3.And(keep, z3.BoolVal(bool(same_rest))), A_REST.props))
+        ra, ora = new._d['_return_annotation'], info.sig._d['_return_annotation']
+        rh, rden = ua_denotes(new._d['upgraded_return_annotation'], EmptyAnn)
+        if env['given_ret']:
+            if on(A_VERB):
+                out.append(VC(A_VERB.full + ':return', [], z3.And(ra.has, ra.val == env['retv'].t, rh, rden == env['retv'].t), A_VERB.props))
+        elif on(A_REST):
+            oh, oden = ua_denotes(info.sig._d['upgraded_return_annotation'], EmptyAnn)
+            out.append(VC(A_REST.full + ':return', [], z3.And(ra.has == ora.has, z3.Implies(ora.has, ra.val == ora.val), rh == oh, z3.Implies(oh, rden == oden)), A_REST.props))
+        return out
     # ---- start= / end= / auto forms
     c_set, c_frame = N_SET[mode], N_FRAME[mode]
     if on(c_frame):
@@ -386,6 +532,28 @@ def replay(env, vc, model):
     info = env['info']
     specs = conc.param_specs(info)
     mode = env['mode']
+    if mode == 'annotate':
+        # native witness: a postponed function, annotate given parameter annotations only (or a return annotation too)
+        ns = {}
+        src = ('from __future__ import annotations\nclass Result: pass\nclass Item: pass\n'
+               'def make(item: Item, count=1, *, flag=False) -> Result:\n    return None\n')
+        exec(compile(src, '<vf-annotate>', 'exec'), ns)
+        f = ns['make']
+        bad = []
+        try:
+            g = modifiers.annotate(count=int)(f)
+            sig = specifiers.signature(g)
+            if sig.upgraded_return_annotation.source_value() is not ns['Result']:
+                bad.append(('post:everything_else_untouched', 'return annotation of a postponed function now denotes %r, not the class Result' % (sig.upgraded_return_annotation.source_value(),)))
+            if sig.parameters['item'].upgraded_annotation.source_value() is not ns['Item']:
+                bad.append(('post:everything_else_untouched', 'annotation of item denotes %r' % (sig.parameters['item'].upgraded_annotation.source_value(),)))
+            if sig.parameters['count'].upgraded_annotation.source_value() is not int or sig.parameters['count'].annotation is not int:
+                bad.append(('post:annotations_verbatim', 'count: %r' % (sig.parameters['count'].annotation,)))
+        except Exception as e:
+            bad.append(('post:annotations_verbatim', 'raised %r' % (e,)))
+        key = ':'.join(vc.name.split('/', 1)[1].split(':')[:2])
+        hit = [b for b in bad if b[0] == key]
+        return dict(status='reproduced' if hit else ('other-violation' if bad else 'no-replay'), op='modifiers:annotate', violated=[list(b) for b in (hit or bad)])
     if mode not in ('prepare', 'call'):
         return dict(status='no-replay', op='modifiers:' + mode)
     poso = [conc.name(n) for n in env['poso']]
